@@ -4,7 +4,7 @@ import types
 from fractions import Fraction as F
 from pathlib import Path
 
-from lib import configs, flatcorr, framework as fw, qconv, runner, snapshot
+from lib import configs, fastlit, flatcorr, framework as fw, qconv, runner, snapshot
 from gen import energy_enums
 
 TOL = F(1, 10 ** 9)
@@ -14,7 +14,7 @@ CORPUS = fw.VERIF / 'corpus' / 'C02'
 
 META = {
     'props': 'Props/C02.v',
-    'claimed': True,
+    'claimed': False,
     'level_text': (
         'Proof (Coq, axiom-free) about an executable model of the surface-plant energy bookkeeping, for every series length, '
         'lifetime, year index and time steps per year >= 1: heat extracted per step; conservation in the electricity / topping / '
@@ -100,12 +100,18 @@ def _arr(I, xs):
     return I.np.array([float(x) for x in xs], dtype=float)
 
 
+def _dq(x):
+    """the short decimal a synthetic float was written as (DESIGN 2.2): small Coq literal, equal to the float up to its own
+    rounding; exact for the integers / dyadics of the exact regime"""
+    return x if isinstance(x, F) else F(repr(float(x)))
+
+
 def integrate_case(I, series, i, k, util, regime):
     r = _call(I.SP.integrate_time_series_slice, _arr(I, series), i, k, float(util))
     n, start = len(series), i * k
     shape = ('beyond' if start >= n else 'single-flat' if start == n - 1 and start < 2 else
              'single-extrapolated' if start == n - 1 else 'short' if n - 1 - start < k else 'full')
-    return {'flat': [F(i), F(k), qconv.F(util)] + [qconv.F(x) for x in series], 'impl': r, 'fn': 'integrate',
+    return {'flat': [F(i), F(k), _dq(util)] + [_dq(x) for x in series], 'impl': r, 'fn': 'integrate',
             'desc': {'fn': 'integrate_time_series_slice', 'series': [float(x) for x in series], 'i': i, 'k': k,
                      'util': float(util), 'regime': regime},
             'nontrivial': (shape, k, min(i, 3), regime) if len(set(series)) > 1 else None, 'shape': shape}
@@ -114,9 +120,9 @@ def integrate_case(I, series, i, k, util, regime):
 def annual_case(I, code, life, k, util, he, pump, el, net, hp):
     r = _call(lambda: I.SP.annual_electricity_pumping_power(None, life, I.eu[code], _arr(I, he), k, float(util), _arr(I, pump),
                                                             _arr(I, el), _arr(I, net), _arr(I, hp)))
-    flat = [F(code), F(life), F(k), qconv.F(util), F(len(he)), F(len(hp))]
+    flat = [F(code), F(life), F(k), _dq(util), F(len(he)), F(len(hp))]
     for s in (he, pump, el, net, hp):
-        flat += [qconv.F(x) for x in s]
+        flat += [_dq(x) for x in s]
     return {'flat': flat, 'impl': r, 'fn': 'annual',
             'desc': {'fn': 'annual_electricity_pumping_power', 'enduse': code, 'life': life, 'k': k, 'util': float(util),
                      'he': list(map(float, he)), 'pump': list(map(float, pump)), 'el': list(map(float, el)),
@@ -126,7 +132,7 @@ def annual_case(I, code, life, k, util, he, pump, el, net, hp):
 
 def remaining_case(I, init, kwh):
     r = _call(lambda: I.SP.remaining_reservoir_heat_content(None, float(init), _arr(I, kwh)))
-    return {'flat': [qconv.F(init)] + [qconv.F(x) for x in kwh], 'impl': r, 'fn': 'remaining',
+    return {'flat': [_dq(init)] + [_dq(x) for x in kwh], 'impl': r, 'fn': 'remaining',
             'desc': {'fn': 'remaining_reservoir_heat_content', 'init': float(init), 'kwh': list(map(float, kwh))},
             'nontrivial': len(kwh) if len(kwh) > 1 else None}
 
@@ -135,10 +141,10 @@ def ehp_case(I, code, n, m, cp, tinj, tchp, eff, chpf, avail, etau, tprod, reinj
     r = _call(lambda: I.SP.electricity_heat_production(None, I.eu[code], _arr(I, avail), _arr(I, etau), n, float(m), float(cp),
                                                        _arr(I, tprod), float(tinj), _arr(I, reinj), float(tchp), float(eff),
                                                        float(chpf)))
-    flat = [F(code), F(n)] + [qconv.F(x) for x in (m, cp, tinj, tchp, eff, chpf)] + \
+    flat = [F(code), F(n)] + [_dq(x) for x in (m, cp, tinj, tchp, eff, chpf)] + \
            [F(len(avail)), F(len(etau)), F(len(tprod)), F(len(reinj))]
     for s in (avail, etau, tprod, reinj):
-        flat += [qconv.F(x) for x in s]
+        flat += [_dq(x) for x in s]
     return {'flat': flat, 'impl': r, 'fn': 'ehp',
             'desc': {'fn': 'electricity_heat_production', 'enduse': code, 'nprod': n, 'flow': float(m), 'cp': float(cp),
                      'tinj': float(tinj), 'tchp': float(tchp), 'eff': float(eff), 'chpf': float(chpf),
@@ -151,7 +157,7 @@ def dh_case(I, life, k, fp, demand):
     stub = types.SimpleNamespace(plant_lifetime=types.SimpleNamespace(value=life),
                                  daily_heating_demand=types.SimpleNamespace(value=_arr(I, demand)))
     r = _call(lambda: I.DH.calc_util_factor(stub, _arr(I, fp), k))
-    return {'flat': [F(life), F(k), F(len(fp))] + [qconv.F(x) for x in fp] + [qconv.F(x) for x in demand], 'impl': r, 'fn': 'dh',
+    return {'flat': [F(life), F(k), F(len(fp))] + [_dq(x) for x in fp] + [_dq(x) for x in demand], 'impl': r, 'fn': 'dh',
             'desc': {'fn': 'calc_util_factor', 'life': life, 'k': k, 'heat_produced': list(map(float, fp)),
                      'daily_demand': list(map(float, demand))},
             'nontrivial': (life, k, r[0])}
@@ -166,7 +172,7 @@ def helper_cases(ctx):
     I = _impl()
     rnd = ctx.rng
     fl = lambda lo, hi: rnd.uniform(lo, hi)
-    series = lambda n, lo, hi: [fl(lo, hi) for _ in range(n)]
+    series = lambda n, lo, hi: [float('%.4g' % fl(lo, hi)) for _ in range(n)]
     cases = []
     # integrate: exhaustive small integer domain (all float operations exact when dx_steps is a power of two)
     for n in range(0, ctx.n(8, 11)):
@@ -247,6 +253,324 @@ def run_helpers(ctx, cases):
         for regime, tol in (('exact', F(0)), ('float', TOL)):
             sel = [c for c in cases if c['fn'] == fn and c['desc'].get('regime', 'float') == regime]
             if sel:
-                flatcorr.run(ctx, f'{fn}-{regime}', REQ, run, tol, sel, kind='property', key_of=_helper_key, what=HELPER_WHAT[fn],
-                             shard=60 if fn == 'dh' else 300)
-    ctx.count('helper-errors', error_cases={c['fn']: 1 for c in cases if c['impl'][0] == 'E'})
+                fastlit.run(ctx, f'{fn}-{regime}', REQ, run, tol, sel, kind='property', key_of=_helper_key, what=HELPER_WHAT[fn],
+                            shard=1 if fn == 'dh' else 40)
+    errs = [c['fn'] for c in cases if c['impl'][0] == 'E']
+    ctx.count('helper-errors', error_cases={fn: errs.count(fn) for fn in set(errs)})
+
+
+# ------------------------------------------------------------------------------------------------------------------
+# whole runs: every balance clause is a Coq checker evaluated in the kernel on the hook snapshot
+# ------------------------------------------------------------------------------------------------------------------
+
+ELECTRIC = {'SurfacePlantSubcriticalOrc', 'SurfacePlantSupercriticalOrc', 'SurfacePlantSingleFlash', 'SurfacePlantDoubleFlash'}
+HEATING = {'SurfacePlantIndustrialHeat', 'SurfacePlantHeatPump', 'SurfacePlantAbsorptionChiller', 'SurfacePlantDistrictHeating'}
+CLAUSE_WHAT = {
+    'extracted': 'HeatExtracted[t] != nprod x flow x cp x (Tprod[t] - Tinj) / 1e6',
+    'net': 'NetElectricityProduced[t] != ElectricityProduced[t] - PumpingPower[t]',
+    'conservation': 'heat towards electricity (Net/FirstLawEfficiency) + HeatProduced/efficiency != HeatExtracted',
+    'bottoming': 'bottoming cycle: HeatProduced != eff x nprod x flow x cp x (Tprod - T_chp_bottom) / 1e6',
+    'parallel': 'parallel cycle: HeatProduced != eff x chp_fraction x HeatExtracted',
+    'direct-use': 'HeatProduced != HeatExtracted x end-use efficiency',
+    'heatpump': 'heat pump: HeatProduced != (HeatExtracted + W) x eff with W = HeatExtracted/(COP-1)',
+    'chiller': 'absorption chiller: HeatProduced != HeatExtracted or cooling != heat x COP x eff',
+    'dh-split': 'district heating: geothermal + peaking != demand/24, geothermal > well output, or peaking < 0',
+    'annual-extracted': 'HeatkWhExtracted[y] != integral of HeatExtracted over year y x utilization',
+    'annual-pumping': 'PumpingkWh[y] != integral of PumpingPower over year y x utilization',
+    'annual-total': 'TotalkWhProduced[y] != integral of ElectricityProduced over year y x utilization',
+    'annual-net': 'NetkWhProduced[y] != integral of NetElectricityProduced over year y x utilization',
+    'annual-heat': 'HeatkWhProduced[y] != integral of HeatProduced over year y x utilization',
+    'annual-heatpump-electricity': 'heat_pump_electricity_kwh_used[y] != integral of heat_pump_electricity_used x utilization',
+    'annual-cooling': 'cooling_kWh_Produced[y] != integral of cooling_produced over year y x utilization',
+    'annual-heat-zero': 'HeatkWhProduced is not zero for a pure electricity plant',
+    'remaining': 'RemainingReservoirHeatContent[y] != initial - 3.6e-9 x cumulative HeatkWhExtracted',
+}
+
+
+def _fin(xs):
+    return all(isinstance(x, (int, float)) and math.isfinite(x) for x in xs)
+
+
+class RunTerms:
+    """Coq terms of the clauses of one run: series are let-bound once and shared by the clauses."""
+
+    def __init__(self, snap):
+        s = snapshot.S(snap)
+        self.s, self.cls = s, snap['surfaceplant']['__class__']
+        self.binds, self.clauses, self.skipped, self.findings = [], [], [], []
+        self.eu = s.v('surfaceplant', 'enduse_option')['int']
+        self.life, self.k = int(s.v('surfaceplant', 'plant_lifetime')), int(s.v('economics', 'timestepsperyear'))
+
+    def series(self, name, values):
+        values = list(values) if isinstance(values, (list, tuple)) else [values]
+        if not _fin(values):
+            raise ValueError(name)
+        self.binds.append(f'let {name} := {fastlit.qlist(values)} in')
+        return name
+
+    def sp(self, attr):
+        return self.s.v('surfaceplant', attr)
+
+    def clause(self, name, term):
+        self.clauses.append((name, term))
+
+    def term(self, only=None):
+        cs = [t for n, t in self.clauses if only is None or n == only]
+        return '(' + '\n '.join(self.binds) + '\n forallb (fun b : bool => b) [' + '; '.join(cs) + '])'
+
+
+def _offsets(s, life, eu):
+    """what the add-on / S-DAC-GT economics added in place to Total/Net kWh and to HeatkWhProduced, per year"""
+    offs_e, offs_h, why = [0.0] * life, [0.0] * life, set()
+    if s.has('economics', 'DoAddOnCalculations') and s.v('economics', 'DoAddOnCalculations') and s.has('addeconomics'):
+        ge, gh = float(s.v('addeconomics', 'AddOnElecGainedTotalPerYear')), float(s.v('addeconomics', 'AddOnHeatGainedTotalPerYear'))
+        for i in range(life):
+            if eu != 2:
+                offs_e[i] += ge
+            if eu != 1:
+                offs_h[i] += gh
+        if (ge and eu != 2) or (gh and eu != 1):
+            why.add('addon')
+    if s.has('economics', 'DoSDACGTCalculations') and s.v('economics', 'DoSDACGTCalculations') and s.has('sdacgteconomics'):
+        ce = s.v('sdacgteconomics', 'CarbonExtractedAnnually')
+        el, th = float(s.v('sdacgteconomics', 'elec')), float(s.v('sdacgteconomics', 'therm'))
+        for i in range(min(life, len(ce))):
+            if eu != 2:
+                offs_e[i] -= ce[i] * el
+            if eu != 1:
+                offs_h[i] -= ce[i] * th
+        why.add('sdac')
+    return offs_e, offs_h, sorted(why)
+
+
+def run_terms(snap):
+    """-> RunTerms for a claimed plant class, None otherwise.  Raises ValueError(name) on a non-finite input series."""
+    R = RunTerms(snap)
+    if R.cls not in ELECTRIC | HEATING:
+        return None
+    s, T, q = R.s, fastlit.q(TOL), fastlit.q
+    life, k, eu = R.life, R.k, R.eu
+    n, m, cp = s.v('wellbores', 'nprod'), s.v('wellbores', 'prodwellflowrate'), s.v('reserv', 'cpwater')
+    tinj, eff = s.v('wellbores', 'Tinj'), R.sp('enduse_efficiency_factor')
+    tprod, pump = R.series('tprod', s.v('wellbores', 'ProducedTemperature')), R.series('pump', s.v('wellbores', 'PumpingPower'))
+    he, hekwh = R.series('he', R.sp('HeatExtracted')), R.series('hekwh', R.sp('HeatkWhExtracted'))
+    pumpkwh, rem = R.series('pumpkwh', R.sp('PumpingkWh')), R.series('rem', R.sp('RemainingReservoirHeatContent'))
+    offs_e, offs_h, why = _offsets(s, life, eu)
+    R.findings = why
+    zeros, offe, offh = R.series('zeros', [0.0] * life), R.series('offe', offs_e), R.series('offh', offs_h)
+    R.clause('extracted', f'check_extracted {T} {q(n)} {q(m)} {q(cp)} {q(tinj)} {tprod} {he}')
+    dh = R.cls == 'SurfacePlantDistrictHeating'
+    if dh:
+        utils = R.series('utils', R.sp('util_factor_array'))
+        ann = lambda ser, offs, rep: f'check_annual_u {T} {ser} {k}%nat {utils} {offs} {rep}'
+    else:
+        util = q(R.sp('utilization_factor'))
+        ann = lambda ser, offs, rep: f'check_annual {T} {ser} {life}%nat {k}%nat {util} {offs} {rep}'
+    R.clause('annual-extracted', ann(he, zeros, hekwh))
+    R.clause('annual-pumping', ann(pump, zeros, pumpkwh))
+    R.clause('remaining', f'check_remaining {T} {q(s.v("reserv", "InitialReservoirHeatContent"))} {hekwh} {rem}')
+    heatkwh = R.series('heatkwh', R.sp('HeatkWhProduced'))
+    if R.cls in ELECTRIC:
+        el, net = R.series('el', R.sp('ElectricityProduced')), R.series('net', R.sp('NetElectricityProduced'))
+        R.clause('net', f'check_net {T} {el} {pump} {net}')
+        R.clause('annual-total', ann(el, offe, R.series('totkwh', R.sp('TotalkWhProduced'))))
+        R.clause('annual-net', ann(net, offe, R.series('netkwh', R.sp('NetkWhProduced'))))
+        hp = R.series('hp', R.sp('HeatProduced'))
+        fle = R.sp('FirstLawEfficiency')
+        fle = R.series('fle', [x if math.isfinite(x) else 0.0 for x in (fle if isinstance(fle, list) else [fle])])
+        R.clause('conservation', f'check_conservation {T} {q(eff if eu != 1 else 1)} {he} {hp} {net} {fle}')
+        if eu == 1:
+            R.clause('annual-heat-zero', f'check_zero {heatkwh}')
+        else:
+            R.clause('annual-heat', ann(hp, offh, heatkwh))
+        if eu in (41, 42):
+            R.clause('bottoming', f'check_bottoming {T} {q(eff)} {q(n)} {q(m)} {q(cp)} {q(R.sp("T_chp_bottom"))} {tprod} {hp}')
+        if eu in (51, 52):
+            R.clause('parallel', f'check_scaled {T} ({q(eff)} * {q(R.sp("chp_fraction"))}) {he} {hp}')
+    else:
+        hp = R.series('hp', R.sp('HeatProduced'))
+        R.clause('annual-heat', ann(hp, offh, heatkwh))
+        if R.cls == 'SurfacePlantHeatPump':
+            w = R.series('w', R.sp('heat_pump_electricity_used'))
+            R.clause('heatpump', f'check_heatpump {T} {q(R.sp("heat_pump_cop"))} {q(eff)} {he} {hp} {w}')
+            R.clause('annual-heatpump-electricity', ann(w, zeros, R.series('wkwh', R.sp('heat_pump_electricity_kwh_used'))))
+        elif R.cls == 'SurfacePlantAbsorptionChiller':
+            cool = R.series('cool', R.sp('cooling_produced'))
+            R.clause('chiller', f'check_chiller {T} {q(R.sp("absorption_chiller_cop"))} {q(eff)} {he} {hp} {cool}')
+            R.clause('annual-cooling', ann(cool, zeros, R.series('coolkwh', R.sp('cooling_kWh_Produced'))))
+        else:
+            R.clause('direct-use', f'check_scaled {T} {q(eff)} {he} {hp}')
+        if dh:
+            dem, geo = R.series('demand', R.sp('daily_heating_demand')), R.series('geo', R.sp('dh_geothermal_heating'))
+            ng, annng = R.series('ng', R.sp('dh_natural_gas_heating')), R.series('annng', R.sp('annual_ng_demand'))
+            R.clause('dh-split', f'check_dh {T} {life}%nat {k}%nat {hp} {dem} {geo} {ng} {utils} {q(R.sp("utilization_factor"))} '
+                                 f'{annng} {q(R.sp("max_peaking_boiler_demand"))}')
+    return R
+
+
+def _kernel_bools(ctx, name, terms, shard):
+    def body(lo, hi):
+        return 'let l := [\n ' + ';\n '.join(terms[lo:hi]) + '] in (List.length l, mismatches (fun b : bool => b) 0 l)'
+    return fw.kernel_eval(ctx, name, ['Base.Flat'] + REQ, body, len(terms), shard)
+
+
+def check_runs(ctx, part, labelled_texts, report=True):
+    """Run the inputs through main(), evaluate every clause in the kernel.  -> list of (label, text, failing clauses)."""
+    results = runner.run_many(ctx, [t for _, t in labelled_texts])
+    items, dist = [], {}
+    for (label, text), r in zip(labelled_texts, results):
+        if r['snap'] is None or 'surfaceplant' not in r['snap']:
+            dist['rejected-or-crashed-before-the-hook'] = dist.get('rejected-or-crashed-before-the-hook', 0) + 1
+            continue
+        try:
+            R = run_terms(r['snap'])
+        except ValueError as e:
+            dist['non-finite series ' + str(e)] = dist.get('non-finite series ' + str(e), 0) + 1
+            continue
+        except KeyError as e:   # an output the clauses need is no longer there: the tie is broken, not the property
+            ctx.violate('corr', f'snapshot-missing:{e}', f'snapshot of {label} lacks {e}', inp={'kind': 'run', 'label': label, 'text': text})
+            continue
+        if R is None:
+            dist['plant class not claimed'] = dist.get('plant class not claimed', 0) + 1
+            continue
+        items.append((label, text, R))
+    failing = _kernel_bools(ctx, part, [R.term() for _, _, R in items], shard=max(1, min(4, len(items) // 16)))
+    out = []
+    diag = failing[:6]      # the failing clauses of the first few failing runs identify the defect; the rest is counted
+    if len(failing) > len(diag):
+        ctx.note(f'{part}: {len(failing)} runs with a failing clause, first {len(diag)} diagnosed')
+    terms, owner = [], []
+    for idx in diag:
+        R = items[idx][2]
+        for n, _ in R.clauses:
+            terms.append(R.term(only=n))
+            owner.append((idx, n))
+    bad_by_run = {}
+    for i in _kernel_bools(ctx, part + '-clauses', terms, shard=2):
+        bad_by_run.setdefault(owner[i][0], []).append(owner[i][1])
+    for idx in diag:
+        label, text, R = items[idx]
+        bad = bad_by_run.get(idx, [])
+        out.append((label, text, bad))
+        if report:
+            for c in bad:
+                ctx.violate('property', f'balance:{c}:{R.cls}:enduse={R.eu}',
+                            f'{CLAUSE_WHAT[c]} (tol 1e-9, checker evaluated in Coq) on run {label}: {R.cls}, end-use {R.eu}, '
+                            f'lifetime {R.life}, {R.k} steps/year',
+                            inp={'kind': 'run', 'label': label, 'text': text, 'clauses': bad}, expected=CLAUSE_WHAT[c].replace('!=', '=='),
+                            observed='checker false')
+    good = set(range(len(items))) - set(failing)
+    for idx in sorted(good):
+        label, text, R = items[idx]
+        for why in R.findings:   # the faithful model (integral + offset) holds, so the stated clause (offset = 0) fails
+            if report:
+                ctx.violate('property', f'annual-not-integral:{why}',
+                            f'annual Total/Net/Heat kWh of run {label} are the integral of the power series PLUS what the {why} '
+                            f'economics added in place (C02_annual_is_integral_refuted)',
+                            inp={'kind': 'run', 'label': label, 'text': text, 'clauses': ['annual-total', 'annual-net', 'annual-heat']},
+                            expected='annual figure == integral x utilization', observed=f'integral x utilization + {why} offset')
+    nontrivial = [(R.cls, R.eu, R.life, R.k) for _, _, R in items]
+    ctx.count(part, evaluations=sum(len(R.clauses) for _, _, R in items), nontrivial_keys=nontrivial,
+              plant=_tally(R.cls for _, _, R in items), enduse=_tally(R.eu for _, _, R in items),
+              lifetime=_tally(R.life for _, _, R in items), steps_per_year=_tally(R.k for _, _, R in items), not_evaluated=dist)
+    for label, text, R in items[:2]:
+        ctx.sample(part, {'label': label, 'plant': R.cls, 'enduse': R.eu, 'lifetime': R.life, 'steps_per_year': R.k,
+                          'clauses': [n for n, _ in R.clauses]})
+    return out
+
+
+def _tally(xs):
+    d = {}
+    for x in xs:
+        d[x] = d.get(x, 0) + 1
+    return d
+
+
+def _opts(rnd, **kw):
+    return dict(addons=False, overpressure=rnd.random() < 0.15, **kw)
+
+
+def gen_runs(ctx):
+    rnd = ctx.rng
+    runs = [('corpus:' + p.name, p.read_text()) for p in sorted(CORPUS.glob('*.txt'))]
+    runs += [('example:' + name, text) for name, text in configs.example_texts(ctx, slow=not ctx.quick)]
+    lives = [1, 2, 3, 7] if ctx.quick else [1, 2, 3, 7, 30, 100]
+    cells = [(eu, pl) for eu in configs.ENDUSES for pl in (configs.ELEC_PLANTS if eu != 2 else configs.HEAT_PLANTS)]
+    for rep in range(ctx.n(2, 12)):
+        for eu, pl in cells:
+            dh = pl == 7
+            if dh and rep >= ctx.n(1, 3):
+                continue
+            life = rnd.choice([1, 2, 3] if dh else lives)
+            tspy = rnd.choice([1, 2, 4, 12]) if rep else [1, 2, 4, 12][(eu + pl) % 4]
+            if life * tspy > ctx.n(60, 400):
+                tspy = 1
+            resm = rnd.choice([3, 4, 4] if ctx.quick or rep % 4 else [1, 2])
+            runs.append((f'cell:eu{eu}:plant{pl}:{rep}',
+                         runner.params_to_text(configs.synthetic(rnd, enduse=eu, plant=pl, life=life, tspy=tspy, resmodel=resm, **_opts(rnd)))))
+    for i in range(ctx.n(12, 150)):     # long series, add-ons
+        eu = rnd.choice(configs.ENDUSES)
+        pl = rnd.choice(configs.ELEC_PLANTS if eu != 2 else [5, 6, 9])
+        runs.append((f'long:{i}', runner.params_to_text(configs.synthetic(
+            rnd, enduse=eu, plant=pl, life=rnd.choice([10, 20, 30, 35] + ([] if ctx.quick else [60, 100])),
+            tspy=rnd.choice([1, 2, 4, 6, 12]), resmodel=rnd.choice([3, 4]), addons=i % 3 == 0, overpressure=False))))
+    return runs
+
+
+def correspondence(ctx, proofs_ok=True):
+    t = energy_enums.tables()
+    if sorted(t['enduse_codes']) != sorted(ENDUSE_CODES):
+        ctx.note(f'end-use options of the source {t["enduse_codes"]} differ from the harness list {ENDUSE_CODES}')
+    run_helpers(ctx, helper_cases(ctx))
+    check_runs(ctx, 'whole-runs', gen_runs(ctx))
+
+
+def search(ctx):
+    """Only broken ties / proofs so far: evaluate the property itself on whole runs around every plant cell (robust to refactoring)."""
+    rnd = ctx.rng
+    runs = []
+    for eu in configs.ENDUSES:
+        for pl in (configs.ELEC_PLANTS if eu != 2 else [5, 6, 9]):
+            for life, tspy in ((1, 1), (2, 1), (3, 4)):
+                runs.append((f'search:eu{eu}:plant{pl}:life{life}:k{tspy}', runner.params_to_text(
+                    configs.synthetic(rnd, enduse=eu, plant=pl, life=life, tspy=tspy, resmodel=4, addons=False, overpressure=False))))
+    check_runs(ctx, 'search-runs', runs)
+
+
+def replay(ctx, data):
+    inp = data['input']
+    if inp.get('kind') == 'run':
+        r = runner.run_many(ctx, [inp['text']])[0]
+        if r['snap'] is None:
+            print('run did not reach the hook:', r['error'])
+            return 1
+        R = run_terms(r['snap'])
+        names = [n for n, _ in R.clauses]
+        bad = {names[i] for i in _kernel_bools(ctx, 'replay', [R.term(only=n) for n in names], shard=4)}
+        print(f'{R.cls}, end-use {R.eu}, lifetime {R.life}, {R.k} steps/year; in-place offsets by: {R.findings or "none"}')
+        for n in names:
+            print(f'  clause {n:28s} {"VIOLATED" if n in bad else "holds"}   ({CLAUSE_WHAT[n]})')
+        stated = bool(bad) or bool(R.findings)
+        if R.findings and not bad:
+            print('  faithful model (integral + offset) agrees; the stated clause annual == integral x utilization is VIOLATED by the offset')
+        print('property', 'VIOLATED' if stated else 'holds', 'on this input')
+        return 1 if stated else 0
+    I, d = _impl(), inp['desc']
+    fn = d['fn']
+    if fn == 'integrate_time_series_slice':
+        c, run = integrate_case(I, d['series'], d['i'], d['k'], d['util'], d['regime']), 'run_integrate'
+    elif fn == 'annual_electricity_pumping_power':
+        c, run = annual_case(I, d['enduse'], d['life'], d['k'], d['util'], d['he'], d['pump'], d['el'], d['net'], d['hp']), 'run_annual_epp'
+    elif fn == 'remaining_reservoir_heat_content':
+        c, run = remaining_case(I, d['init'], d['kwh']), 'run_remaining'
+    elif fn == 'electricity_heat_production':
+        c, run = ehp_case(I, d['enduse'], d['nprod'], d['flow'], d['cp'], d['tinj'], d['tchp'], d['eff'], d['chpf'], d['avail'],
+                          d['etau'], d['tprod'], d['reinj']), 'run_ehp'
+    else:
+        c, run = dh_case(I, d['life'], d['k'], d['heat_produced'], d['daily_demand']), 'run_dh'
+    tol = F(0) if d.get('regime') == 'exact' else TOL
+    failing = fastlit.kernel_cases(ctx, 'replay', REQ, run, tol, [(c['flat'], flatcorr.res_of(c['impl']))])
+    print(fn, 'implementation:', str(flatcorr._show(c['impl']))[:600])
+    print('Coq model (proved to satisfy the balance) agrees within', float(tol), ':', not failing)
+    print('property', 'VIOLATED' if failing else 'holds', 'on this input')
+    return 1 if failing else 0
